@@ -6,15 +6,17 @@
 
     PROVED HERE (`_partial`): the symbol-map layer.  For ALL op sequences (the calls the indexer makes, hook H3)
     satisfying the id side conditions [ops_ids_wf] (every id passed was allocated, `x.add_*` follows the matching
-    `x_mut`, and `record.add_parent p` on record r has p < r -- CHECKED on the real op log of every generated
-    workspace): no op panics; the read-only API and the handlers that only read the map (find_symbol_at,
-    goto_definition, references, iter_symbols_in_range with the guard of fix 751cf5a) never panic at any
-    position / range; and the recursion through `parent_list` (`find_field`, `is_subclass_of`) terminates
-    within fuel = number of records for every record and name (parents are strictly older, so the relation is
-    well founded; mutual recursion is impossible because a redefinition allocates a new record).
-    The two fixes are shown necessary: without the guard of 751cf5a the empty range query panics in iset
-    ([C03_unguarded_range_query_panics], D11); without the guard of fb9cd66 the log of `class A : A {…}` makes
-    `find_field` diverge for every fuel ([C03_self_parent_diverges], D3).
+    `x_mut` -- CHECKED on the real op log of every generated workspace): no op panics; the read-only API and the
+    handlers that only read the map (find_symbol_at, goto_definition, references, iter_symbols_in_range with the
+    guard of fix 751cf5a) never panic at any position / range; and the recursion through `parent_list`
+    (`find_field`, `is_subclass_of`, with the visited set of fix 1b571ae) terminates within depth
+    (number of records + 1) and makes at most (number of records + 1) invocations, for every record and name and
+    for EVERY parent relation (also a cyclic one: since 1b571ae the self-parent guard of fb9cd66 is no longer
+    needed for termination).
+    The fixes are shown necessary: without the guard of 751cf5a the empty range query panics in iset
+    ([C03_unguarded_range_query_panics], D11); without the visited set the log of `class A : A {…}` makes
+    `find_field_v0` diverge for every fuel ([C03_self_parent_diverges_v0], D3) and a 10-layer duplicate-parent
+    chain costs 2047 instead of 11 invocations ([C03_diamond_exponential_v0], D35).
     MISSING for the full statement: the indexer itself (scope-stack panic sites, bang-operator arms, tree
     navigation), hover / completion / document_symbol / folding / links, and the native stack.  Those stay an
     oracle: checks/C03.py runs ALL queries at ALL offsets on generated programs, every prefix, single-token
@@ -32,23 +34,38 @@ Theorem C03_symbol_map_total_partial : forall ops,
     (forall f p, exists o, goto_definition S f p = SOk o) /\
     (forall f p, exists o, references S f p = SOk o) /\
     (forall loc, exists o, iter_symbols_in_range S loc = SOk o) /\
-    (forall r n, r < next_id S KRecord -> exists o, find_field (length (sm_records S)) S r n = SOk o) /\
-    (forall r other, r < next_id S KRecord -> exists b, is_subclass_of (length (sm_records S)) S r other = SOk b).
+    (forall r n, r < next_id S KRecord -> exists o, find_field (Datatypes.S (length (sm_records S))) S r n = SOk o) /\
+    (forall r other, r < next_id S KRecord -> exists b, is_subclass_of (Datatypes.S (length (sm_records S))) S r other = SOk b) /\
+    (* WORK bound (what defect D35 violated): at most (number of records + 1) invocations per lookup *)
+    (forall r n, r < next_id S KRecord ->
+       (fst (find_field_calls (Datatypes.S (length (sm_records S))) S r n []) <= Datatypes.S (length (sm_records S)))%nat).
 Proof. exact c03_symbol_map_total. Qed.
 
 Theorem C03_unguarded_range_query_panics :
   exists S loc, iter_symbols_in_range_g false S loc = SErr EIntervalEmpty.
 Proof. exact iter_symbols_in_range_unguarded_panics. Qed.
 
-Theorem C03_self_parent_diverges :
-  ops_ids_wf d3_ops = false /\
-  exists S, run_ops d3_ops = SOk S /\ forall fuel, find_field fuel S 0 [121] = SErr EOutOfFuel.
-Proof. exact c03_self_parent_diverges. Qed.
+(** D3: before fix 1b571ae (no visited set) the log of `class A : A {..}` without the guard of fb9cd66 made
+    `find_field` diverge for EVERY fuel; with the visited set the same state is harmless. *)
+Theorem C03_self_parent_diverges_v0 :
+  exists S, run_ops d3_ops = SOk S /\ (forall fuel, find_field_v0 fuel S 0 [121] = SErr EOutOfFuel) /\
+            find_field 2 S 0 [121] = SOk None /\ is_subclass_of 2 S 0 0 = SOk true.
+Proof. exact c03_self_parent_diverges_v0. Qed.
+
+(** D35: before fix 1b571ae a chain `class C0 { int a; } class Ci : Ci-1, Ci-1;` (i = 1..10) and a failing lookup
+    cost 2^11 - 1 = 2047 invocations; the repaired function makes 11 and gives the same answers. *)
+Theorem C03_diamond_exponential_v0 :
+  ops_ids_wf d35_ops = true /\
+  exists S, run_ops d35_ops = SOk S /\
+    find_field_calls_v0 12 S 10 [113] = 2047%nat /\ find_field_v0 12 S 10 [113] = SOk None /\
+    fst (find_field_calls 12 S 10 [113] []) = 11%nat /\ find_field 12 S 10 [113] = SOk None /\
+    find_field 12 S 10 [97] = SOk (Some 0) /\ find_field_v0 12 S 10 [97] = SOk (Some 0).
+Proof. exact c03_diamond_exponential_v0. Qed.
 
 (** non-vacuity: `class A; class B : A; class A : B;` satisfies the hypothesis (the second A is a new record) *)
 Theorem C03_nonvacuous : ops_ids_wf c03_ex_ops = true /\
   exists S, run_ops c03_ex_ops = SOk S /\ record_parents S 2 = [1] /\ record_parents S 1 = [0] /\ record_parents S 0 = [] /\
-            is_subclass_of 3 S 2 0 = SOk true /\ is_subclass_of 3 S 0 2 = SOk false.
+            is_subclass_of 4 S 2 0 = SOk true /\ is_subclass_of 4 S 0 2 = SOk false.
 Proof. exact c03_ex. Qed.
 
 Check C03_symbol_map_total_partial : forall ops,
@@ -58,11 +75,14 @@ Check C03_symbol_map_total_partial : forall ops,
     (forall f p, exists o, goto_definition S f p = SOk o) /\
     (forall f p, exists o, references S f p = SOk o) /\
     (forall loc, exists o, iter_symbols_in_range S loc = SOk o) /\
-    (forall r n, r < next_id S KRecord -> exists o, find_field (length (sm_records S)) S r n = SOk o) /\
-    (forall r other, r < next_id S KRecord -> exists b, is_subclass_of (length (sm_records S)) S r other = SOk b).
+    (forall r n, r < next_id S KRecord -> exists o, find_field (Datatypes.S (length (sm_records S))) S r n = SOk o) /\
+    (forall r other, r < next_id S KRecord -> exists b, is_subclass_of (Datatypes.S (length (sm_records S))) S r other = SOk b) /\
+    (forall r n, r < next_id S KRecord ->
+       (fst (find_field_calls (Datatypes.S (length (sm_records S))) S r n []) <= Datatypes.S (length (sm_records S)))%nat).
 Print Assumptions C03_symbol_map_total_partial.
 Print Assumptions C03_unguarded_range_query_panics.
-Print Assumptions C03_self_parent_diverges.
+Print Assumptions C03_self_parent_diverges_v0.
+Print Assumptions C03_diamond_exponential_v0.
 Print Assumptions C03_nonvacuous.
 
 (** every panic site of the `ide` crate found in the CURRENT sources (tools/translate/t_panicsites.py) has a
